@@ -26,7 +26,7 @@ RULE = (
     "C01's supported class (state used only by transitions, single-node continuous state grid, stochastic transition "
     "without dependencies, choice-only filter, filter over a continuous variable, filter through an auxiliary "
     "function, filters excluding every state in a period, a transition into a filter-excluded state, unused choice, single-label discrete state, no choices, "
-    "single-node choice grids, none): if grid -> Model -> get_lcm_function all succeed, then solve, "
+    "single-node choice grids, none; and one operator that stays inside the class: all functions given as callables carrying a __signature__ attribute, which must be accepted AND run): if grid -> Model -> get_lcm_function all succeed, then solve, "
     "solve_and_simulate and simulate(vf_arr_list=...) with template-conforming parameters and initial states for all "
     "states must return without raising. Non-trivial: reject: >=2 operators; accept: an accepted model with a "
     "widening operator other than 'none'. Distinct by case digest."
@@ -42,7 +42,7 @@ PROFILE = Profile(name="wide", max_periods=3, p_filter=0.5, max_points=8_000, ma
 REJECT_OPS = ["n_periods", "no_utility", "no_next", "state_choice_overlap", "grid_not_grid", "func_not_callable",
               "non_string_key", "stochastic_continuous_state", "stochastic_continuous_dep", "filter_with_param",
               "invalid_grid"]
-WIDEN_OPS = ["none", "state_only_in_transitions", "single_node_state_grid", "stochastic_no_deps", "choice_only_filter",
+WIDEN_OPS = ["none", "functions_with_signature_attribute", "state_only_in_transitions", "single_node_state_grid", "stochastic_no_deps", "choice_only_filter",
              "filter_on_continuous", "filter_through_aux", "empty_space_in_a_period", "transition_into_excluded_state", "unused_choice",
              "single_label_state", "no_choices", "single_node_choice_grids"]
 
@@ -222,7 +222,7 @@ def widen(spec, op, pick):
     dc = [c for c in C if spec.is_disc(c)]
     cs = [s for s in S if not spec.is_disc(s)]
     T = spec.n_periods
-    if op == "none":
+    if op in ("none", "functions_with_signature_attribute"):
         return new
     if op == "state_only_in_transitions":
         new.states["xaux"] = ("disc", 2)
@@ -393,10 +393,17 @@ def check_accept(case):
     allowed = (GridInitializationError, ModelInitilizationError, ValueError)
     fns = {}
     try:
-        model = to_lcm_model(spec)
+        if case["op"] == "functions_with_signature_attribute":
+            from ..ir import with_signature_attribute
+
+            model = to_lcm_model(spec, wrap=with_signature_attribute)
+        else:
+            model = to_lcm_model(spec)
         for tgt in ("solve", "simulate", "solve_and_simulate"):
             fns[tgt], tmpl = get_lcm_function(model, targets=tgt, debug_mode=False)
     except allowed as e:
+        if case["op"] == "functions_with_signature_attribute":
+            return [f"a supported model whose functions carry a __signature__ attribute was rejected: {type(e).__name__}: {str(e)[:200]}"], "valid_model_rejected", spec
         return [], f"rejected:{type(e).__name__}", spec
     except Exception as e:  # noqa: BLE001
         return [f"widening {case['op']}: creation raised {type(e).__name__}: {str(e)[:200]}"], f"creation_wrong_exception:{type(e).__name__}", spec
@@ -479,7 +486,8 @@ def fixed_cases(tier):
     spec_s.functions["next_h_s"] = {"args": ["h_s", "d_w"], "body": "None", "stochastic": True}
     spec_s.params["shocks"] = {"h_s": np.array([[[0.9, 0.1], [0.5, 0.5]], [[0.2, 0.8], [0.0, 1.0]]])}
     spec_s = spec_s.to_json()
-    out = []
+    out = [{"dir": "accept", "spec": b, "op": "functions_with_signature_attribute", "pick": [0] * 6, "seed": 3, "n_agents": 2}
+           for b in (spec, spec_s)]
     for op in ("stochastic_continuous_state", "stochastic_continuous_dep"):
         for v in range(4):
             for base in (spec, spec_s):
